@@ -5,3 +5,12 @@
 //! implementation. It adds code only; nothing here is used by the crate itself.
 
 pub mod kbucket;
+pub mod handler;
+pub mod rpc;
+pub mod cache;
+pub mod talk;
+pub mod vote;
+pub mod packet;
+pub mod query;
+pub mod service;
+pub mod filter;
